@@ -129,6 +129,16 @@ def run(tier, seed):
                     ds = cls(make_td(n)).add_key("extra", torch.tensor([float(F(t)) for t in range(1, n + 1)]))
                     recs.append(record_pass(DataLoader(ds, batch_size=b, shuffle=shuffle, collate_fn=ds.collate_fn),
                                             orig, n, b, shuffle, True, cname + ".add_key"))
+                    # re-wrapping: the same underlying dataset is wrapped, READ, then wrapped again with new values
+                    # (what happens every epoch / whenever the rollout baseline is updated): the second pass must
+                    # deliver the second values
+                    base = cls(make_td(n))
+                    w1 = base.add_key("extra", torch.tensor([float(7 * t) for t in range(1, n + 1)]))
+                    for _ in DataLoader(w1, batch_size=b, shuffle=False, collate_fn=w1.collate_fn):
+                        pass
+                    w2 = base.add_key("extra", torch.tensor([float(F(t)) for t in range(1, n + 1)]))
+                    recs.append(record_pass(DataLoader(w2, batch_size=b, shuffle=shuffle, collate_fn=w2.collate_fn),
+                                            orig, n, b, shuffle, True, cname + ".add_key after an earlier wrapping was read"))
                     # the route the trainer takes: module.wrap_dataset (baseline) + module._dataloader_single
                     mod.val_batch_size = rnd.choice([1, 2, 3, n + 2])
                     mod.dataloader_num_workers = 0
